@@ -8,7 +8,10 @@ Mini language (one constructor per documented forwarding pattern, DOCUMENTATION.
   * `Use`       `kwargs.pop(n, d)`, `kwargs.get(n, d)`, `super().__init__(p₁..p_k, g₁=.., **kwargs)`
                 (optionally `super(X, self)`), a call of a module-level function / a class
                 (`Target.entry`), of a method of `self` (`Target.selfMeth`), `cls(**kwargs)` inside a
-                classmethod (`Target.clsSelf`); every call with `givenPos` hard-coded positionals and the
+                classmethod (`Target.clsSelf`), `Cls.factory(**kwargs)` (`Target.classMeth`: a classmethod the
+                class offers, own or inherited), and `self._kw = kwargs` forwarded later by a method/property
+                as `entry(…, **self._kw)` (`Target.attrEntry`: the attribute path removes hard-coded arguments
+                without feeding the shared `removed` set); every call with `givenPos` hard-coded positionals and the
                 hard-coded keyword names `given`
   * `Guard`     where the statement sits: unconditional, under a constant module-level boolean
                 (`const live`, the resolver and the interpreter both select statically), or in branch `i`
@@ -42,7 +45,10 @@ inherits one whose `super()` call hard-codes no more positionals than it has par
 (decidable: a popped name defined elsewhere has the same default — then the resolver never raises),
 `Prog.defs` / `sameSig` (where an offered parameter can come from).
 
-Outside the model: `*args` forwarding, attribute-then-use (`self._kwargs = kwargs`), method overriding,
+A class lists the classmethods it OFFERS (`Class.cmeths`: own and inherited — the attribute lookup is an
+input computed by the harness from the real MRO, like the MRO itself).
+
+Outside the model: `*args` forwarding, `dict(p=1, **kwargs)` entries on the attribute path, method overriding,
 the stale `current_mro` index after a first `super()` call in the same body (the generator emits at
 most one `super()` call per body, as its last forwarding call), the assumptions/stubs fallback after
 `Out.crash` (the model propagates `crash` to the query; the harness then only runs the oracle).
